@@ -197,7 +197,12 @@ def oracle(line, out):
                 if out != 'err:RuleDescriptorMatchError':
                     v.append(('C15', f'no rule matches: got {out}')); v.append(('C10', f'no rule matches: got {out}'))
             else:
-                outs = [spec.ref_compress(p, r) for r in app]
+                try:
+                    outs = [spec.ref_compress(p, r) for r in app]
+                except (StopIteration, AssertionError, KeyError, ValueError):
+                    # an applicable rule that cannot encode the packet (e.g. ignore + mapping-sent for a value the mapping
+                    # lacks): outside C10's quantifier, nothing to demand of the strategy on this input
+                    return v
                 if st == 'first': exp = outs[0]
                 else: exp = min(outs, key=len)   # first among the shortest
                 if err or out[2:] != exp and not (st == 'best' and not err and len(out[2:]) == len(exp) and out[2:] in outs):
